@@ -674,7 +674,9 @@ const (
 	uMix
 )
 
-func (u unit) String() string { return [...]string{"unitless", "rune-count", "byte-offset", "mixed"}[u] }
+func (u unit) String() string {
+	return [...]string{"unitless", "rune-count", "byte-offset", "mixed"}[u]
+}
 
 func joinUnit(a, b unit) unit {
 	switch {
@@ -689,11 +691,11 @@ func joinUnit(a, b unit) unit {
 }
 
 type unitEngine struct {
-	c      *Ctx
-	posNth *ssa.Function
-	absFn  *ssa.Function
-	memo   map[ssa.Value]unit
-	busy   map[ssa.Value]bool
+	c            *Ctx
+	posNth       *ssa.Function
+	absFn        *ssa.Function
+	memo         map[ssa.Value]unit
+	busy         map[ssa.Value]bool
 	runeParamFns map[*ssa.Function]bool
 }
 
